@@ -8,3 +8,5 @@ EXPLANATION = ("Function contracts on the real tf_pwa rotation-group kernels (df
 ASSUMPTIONS = []
 
 from vt.contracts import tables_ground  # noqa: F401,E402
+from vt.contracts import dfun_sym  # noqa: F401,E402
+from vt.contracts import su2  # noqa: F401,E402
